@@ -157,7 +157,7 @@ DgDeepCopy(g) ==
        /\ res' = [t |-> "grp", g |-> NextGid]
 
 \* ------------------------------------------------------------------ indexing
-IdxKinds == {"i0", "im1", "iout", "s02", "s_2", "srev", "s1_", "mask", "maskArr", "maskBad", "maskNone",
+IdxKinds == {"i0", "im1", "imn", "iout", "s02", "s_2", "srev", "s1_", "mask", "maskArr", "maskBad", "maskNone",
              "ia", "iaArr", "perm", "faArr", "vecIdx"}
 Odd(n) == SelectSeq([i \in 1..n |-> i], LAMBDA i : i % 2 = 1)
 OkRows(rows, scalar, view) == [ok |-> TRUE, rows |-> rows, scalar |-> scalar, view |-> view]
@@ -166,6 +166,7 @@ Bad(e) == [ok |-> FALSE, e |-> e]
 Src(kind, n) ==
   CASE kind = "i0"      -> IF n >= 1 THEN OkRows(<<1>>, TRUE, FALSE) ELSE Bad("IndexError")
     [] kind = "im1"     -> IF n >= 1 THEN OkRows(<<n>>, TRUE, FALSE) ELSE Bad("IndexError")
+    [] kind = "imn"     -> IF n >= 1 THEN OkRows(<<1>>, TRUE, FALSE) ELSE Bad("IndexError")       \* the integer -n: the first row, counted from the end
     [] kind = "iout"    -> Bad("IndexError")
     [] kind = "s02"     -> OkRows([i \in 1..(IF n < 2 THEN n ELSE 2) |-> i], FALSE, TRUE)
     [] kind = "s_2"     -> OkRows(Odd(n), FALSE, TRUE)
